@@ -237,7 +237,8 @@ def run_cbmc_one(pkgdir, name, gfile, unwind, cap, mangled):
       rc, timed_out = -9, True
   wall = time.time() - t0
   r = {"id": name, "duration_s": wall, "fails": [], "unwind": [], "covers_sat": [], "covers_unsat": [],
-       "undetermined": 0, "checks": 0, "funcs": [], "stats": {}, "error": None, "rc": rc, "log": logp}
+       "undetermined": 0, "checks": 0, "funcs": [], "stats": {}, "error": None, "rc": rc, "log": logp,
+       "gfile": gfile, "cmd": cmd}
   funcs = set()
   covers = []
   reachable = set()
@@ -296,7 +297,8 @@ def run_cbmc_one(pkgdir, name, gfile, unwind, cap, mangled):
         continue
       r["checks"] += 1
       if st == "FAILURE":
-        item = {"desc": strip_q(desc), "function": fn, "file": cur_file, "line": ln, "category": cls}
+        item = {"desc": strip_q(desc), "function": fn, "file": cur_file, "line": ln, "category": cls,
+                "prop": "%s.%s.%s" % (fn, cls, _n)}
         if cls == "unwind" or "unwinding assertion" in desc or "VERIF-BOUND" in desc:
           r["unwind"].append(item)
         else:
@@ -410,6 +412,57 @@ def is_known(known, pid, harness, desc):
   return None
 
 
+def trace_playback(pkgdir, harness, pretty, r, fail, cap):
+  """Counterexample -> Kani concrete-playback unit test, without the (slow) official kani-driver run:
+  re-run cbmc on the same goto binary for the one failed property with --trace --json-ui and collect, in
+  order, the values returned by kani::any_raw_* (exactly what kani-driver's concrete playback extracts)."""
+  cmd = [c for c in r["cmd"] if c not in ("--verbosity", "8")]
+  cmd = cmd[:-1] + ["--property", fail["prop"], "--trace", "--json-ui", "--verbosity", "4", r["gfile"]]
+  try:
+    p = subprocess.run(cmd, stdout=subprocess.PIPE, stderr=subprocess.DEVNULL, text=True, timeout=cap * 2)
+  except subprocess.TimeoutExpired:
+    return None
+  try:
+    data = json.loads(p.stdout)
+  except Exception:
+    return None
+  vals = []
+
+  def walk(o):
+    if isinstance(o, dict):
+      if "trace" in o and isinstance(o["trace"], list):
+        for st in o["trace"]:
+          lhs = st.get("lhs") or ""
+          fn = (st.get("sourceLocation") or {}).get("function") or ""
+          v = st.get("value") or {}
+          if st.get("stepType") == "assignment" and lhs.startswith("goto_symex$$return_value") and "any_raw" in fn \
+             and v.get("binary") is not None and v.get("width"):
+            bits = v["binary"]
+            w = int(v["width"])
+            bits = bits.rjust(w, "0")
+            by = [int(bits[i:i + 8], 2) for i in range(0, w, 8)]
+            by.reverse()  # little endian
+            vals.append(by)
+        return True
+      for x in o.values():
+        if walk(x):
+          return True
+    elif isinstance(o, list):
+      for x in o:
+        if walk(x):
+          return True
+    return False
+
+  walk(data)
+  h = hashlib.sha1((harness + fail["desc"] + repr(vals)).encode()).hexdigest()[:16]
+  fn_name = pretty.split("::")[-1]
+  body = "".join("        // %s\n        vec![%s],\n" % (int.from_bytes(bytes(b), "little"), ", ".join(str(x) for x in b)) for b in vals)
+  test = ("/// Test generated for harness `%s` (values from the CBMC trace of this run)\n///\n/// Check for `%s`: \"%s\"\n\n"
+          "#[test]\nfn kani_concrete_playback_%s_%s() {\n    let concrete_vals: Vec<Vec<u8>> = vec![\n%s    ];\n"
+          "    kani::concrete_playback_run(concrete_vals, %s);\n}\n") % (pretty, fail["category"], fail["desc"], fn_name, h, body, fn_name)
+  return test
+
+
 def playback_print(pkgdir, harness, cap):
   """Re-run one failing harness with concrete playback; return generated test source or None."""
   tdir = os.path.join(pkgdir, "target_pb")
@@ -451,6 +504,11 @@ def native_replay(pkg, rel_file, test_src, expect_desc, tag):
       out = p.stdout
     except subprocess.TimeoutExpired:
       out = "TIMEOUT"
+    try:
+      os.makedirs(os.path.join(WORK, "replay-logs"), exist_ok=True)
+      open(os.path.join(WORK, "replay-logs", "%s-%s.log" % (tname, "release" if prof else "dev")), "w").write(out)
+    except OSError:
+      pass
     failed = re.search(r"test \S*%s \.\.\. FAILED" % re.escape(tname), out) is not None
     msg_ok = expect_desc in out if expect_desc else failed
     # arithmetic / bounds / pointer checks surface natively as ordinary panics with other wording
@@ -649,20 +707,39 @@ def main():
             known_hits.append({"harness": n, "check": f["desc"], "what": k.get("what", "")})
           else:
             new.append(f)
-        if new:
-          tests = playback_print(pdir, n, cap)
+        if new and violations:
+          log("  ALSO-FAILED harness=%s checks=%s (not replayed: a violation of this property is already confirmed)" % (n, sorted(set(f["desc"] for f in new))))
+          violations.append({"harness": n, "checks": sorted(set(f["desc"] for f in new)), "replay": None})
+        elif new:
           reproduced = None
           descs = [f["desc"] for f in new]
-          for t in tests:
-            m = re.search(r'Check for `\w+`: "+(.*?)"+\s*$', t, re.M)
-            tdesc = strip_q(m.group(1)) if m else None
-            if tdesc is not None and tdesc not in descs:
+          pretty = gotos[n][2] if n in gotos else n
+          tried = set()
+          for f in new:
+            if f["desc"] in tried:
               continue
-            ok, det = native_replay(pkg, relfile.get(n, ""), t, tdesc, tag)
+            tried.add(f["desc"])
+            t = trace_playback(pdir, n, pretty, r, f, cap)
+            if not t:
+              continue
+            ok, det = native_replay(pkg, relfile.get(n, ""), t, f["desc"], tag)
             notes["replays"] += 1
             if ok:
-              reproduced = (t, tdesc, det)
+              reproduced = (t, f["desc"], det)
               break
+          if not reproduced:
+            # fallback: official kani-driver concrete playback (slow: JSON UI at verbosity 9)
+            tests = playback_print(pdir, n, cap * 3)
+            for t in tests:
+              m = re.search(r'Check for `\w+`: "+(.*?)"+\s*$', t, re.M)
+              tdesc = strip_q(m.group(1)) if m else None
+              if tdesc is not None and tdesc not in descs:
+                continue
+              ok, det = native_replay(pkg, relfile.get(n, ""), t, tdesc, tag)
+              notes["replays"] += 1
+              if ok:
+                reproduced = (t, tdesc, det)
+                break
           if reproduced:
             t, tdesc, det = reproduced
             os.makedirs(os.path.join(ROOT, "replay"), exist_ok=True)
